@@ -407,6 +407,11 @@ pub fn run(ctx: &Ctx) -> (Acc, Report) {
             vals.push((format!("err-{code}-{l}"), Ev::Err { code: code.to_owned(), message: m.map(str::to_owned) }));
         }
     }
+    // every error code the library knows by name (the `:error-code` header comes from a table of its own), and as the
+    // error that ends a stream of records
+    for (code, _) in crate::model::ERROR_TABLE.iter() {
+        vals.push((format!("err-code-{code}"), Ev::Err { code: (*code).to_owned(), message: Some("m".into()) }));
+    }
     par_items(&mut acc, &vals, |a, vi, (label, ev)| {
         for pos in 0..3 {
             let id = format!("value/{label}/pos{pos}");
@@ -423,7 +428,7 @@ pub fn run(ctx: &Ctx) -> (Acc, Report) {
     });
     let rep = Report {
         level: "exploration",
-        rule: format!("all {n_seqs} event sequences of length 0..{max_len} over {{Records, Stats, Progress, Cont, End, Err(known code), Err(custom code)}}, and the value axes (Records payloads of {sizes:?} bytes incl. bytes shaped like a prelude; Stats/Progress details absent/zeros/i64::MAX/mixed; 4 error codes x 6 messages up to 32767 and 70000 bytes) as single event, between Cont and End, and doubled; each emitted by a scripted backend through the real S3Service::call and decoded by an own frame reader with an own CRC-32, by aws-smithy-eventstream, and (for sequences up to length 2 and the value axes) by aws-sdk-s3's event receiver. Distinct by id."),
+        rule: format!("all {n_seqs} event sequences of length 0..{max_len} over {{Records, Stats, Progress, Cont, End, Err(known code), Err(custom code)}}, and the value axes (Records payloads of {sizes:?} bytes incl. bytes shaped like a prelude; Stats/Progress details absent/zeros/i64::MAX/mixed; 4 error codes x 6 messages up to 32767 and 70000 bytes; every error code of the error-code table) as single event, between Cont and End, and doubled; each emitted by a scripted backend through the real S3Service::call and decoded by an own frame reader with an own CRC-32, by aws-smithy-eventstream, and (for sequences up to length 2 and the value axes) by aws-sdk-s3's event receiver. Distinct by id."),
         exhaustive: true,
         extra: json!({"sequences": n_seqs, "value_cases": vals.len() * 3}),
         assumptions: vec!["an error message longer than a string header can carry (> 32767 bytes) is recorded, not judged".into(), "the SDK receiver stops at the first error frame by design; only the prefix is compared there".into()],
